@@ -152,6 +152,20 @@ def values_pair(regime, kind, rng, sx, sy):
             vx = np.abs(vx) + 0.125
             vy = rng.integers(-2, 4, size=sy).astype(float)
         return vx, vy
+    if regime == "wide":
+        # magnitudes from 1e-100 to 1e100 (products and quotients stay finite), mixed signs, negative zero
+        def w(shape):
+            v = rng.standard_normal(size=shape) * 10.0 ** rng.uniform(-100, 100, size=shape)
+            if v.size > 2:
+                v.flat[rng.integers(0, v.size)] = -0.0
+            return v
+        vx, vy = w(sx), w(sy)
+        if kind == "div":
+            vy = np.where(vy == 0, 1e-50, vy)
+        if kind == "pow":
+            vx = np.abs(reals(rng, sx, zeros=False)) ** 0.25 + 0.01
+            vy = rng.uniform(-2, 3, size=sy)
+        return vx, vy
     if regime in ("real", "taint"):
         vx, vy = reals(rng, sx), reals(rng, sy)
         if kind == "div":
@@ -195,6 +209,11 @@ def values_one(regime, rng, shape, layout=False):
         return dyadic(rng, shape)
     if regime == "ints":
         return rng.integers(-9, 30, size=shape)  # integer dtype
+    if regime == "wide":
+        v = rng.standard_normal(size=shape) * 10.0 ** rng.uniform(-100, 100, size=shape)
+        if v.size > 2:
+            v.flat[rng.integers(0, v.size)] = -0.0
+        return v
     v = reals(rng, shape)
     if regime == "taint" and v.size:
         v.flat[rng.integers(0, v.size)] = np.nan
